@@ -335,7 +335,7 @@ func checkNoNondeterminism(p *core.Program, r *core.Report, ctx *circuitCtx) {
 	}
 	reach := g.Reach(roots...)
 	// exclude package main and server (CLI / service code is not definition code) unless reached as callee
-	writers := eff.GlobalWriters(g)
+	writers := eff.GlobalStateWriters(g)
 	written := map[*ssa.Global]*ssa.Function{}
 	for f, gs := range writers {
 		for _, gl := range gs {
